@@ -63,6 +63,8 @@ def cfg_bayer(tier, seed):
                 if tier == 'quick' and k == 3 and (os > 2 or tiles != (1, 1)):
                     continue
                 out.append({'pattern': pat, 'tiles': list(tiles), 'os': os, 'flatten': (len(out) % 3 != 0)})
+                if len(out) % 4 == 1:
+                    out[-1]['case'] = 'lower' if len(out) % 8 == 1 else 'mixed'        # pattern letters are accepted in either case
     return out, len(out), False
 
 
@@ -76,7 +78,8 @@ def run_bayer(W, cfg):
     img = W.array([[[W.real(f'ph_{w}_{i}_{j}') for j in range(nc)] for i in range(nr)] for w in range(nw)])
     q = {c: [W.real(f'q{c}{w}') for w in range(nw)] for c in 'RGB'}
     waves = [500, 600]
-    got = lt.detector.collect_charge_bayer(img, waves, W.array(q['R']), W.array(q['G']), W.array(q['B']), pat, oversample=os, flatten=cfg['flatten'])
+    as_given = {'lower': pat.lower(), 'mixed': ''.join(ch.lower() if n % 2 else ch for n, ch in enumerate(pat))}.get(cfg.get('case'), pat)
+    got = lt.detector.collect_charge_bayer(img, waves, W.array(q['R']), W.array(q['G']), W.array(q['B']), as_given, oversample=os, flatten=cfg['flatten'])
 
     def colour(i, j):
         return pat[((i // os) % k) * k + ((j // os) % k)]
